@@ -14,7 +14,8 @@ match, error-page substitution (status + framing only), Content-Length guard => 
 Clauses: well-framed (exactly one response, then the pipelined response or EOF); status/reason;
 handler-set headers; body; Content-Length == length of the body a GET would carry (HEAD / 304);
 a close-delimited body is followed by EOF and is never announced with Connection: Keep-Alive;
-no header line the program did not ask for (CR/LF injection).
+no header line the program did not ask for (CR/LF injection); no operation rejected (exception logged on
+tornado.application) that the model accepts.
 
 EITHER classes (only universal safety asserted): program-set Transfer-Encoding (`app_te`);
 1xx/204 with a program-set non-zero Content-Length (torn down by the length guard or sent as is,
@@ -23,8 +24,25 @@ HEAD / manual 204,304,1xx combined with a program-set Content-Length that a GET 
 (`cl_unverifiable`); reason phrases containing CTLs or '<' (reason not compared, `unsafe_reason`);
 a 1xx status chosen as *final* status (counted as the response to the request, `final_1xx`).
 
-Sensitivity (quick tier, seed 1, mutants applied to a scratch copy of tornado/):
-  see the end of this docstring (filled in after the mutant runs).
+Findings on the current tree (open, see known_findings.d/C02.json + findings_inbox/C02-*.md):
+  F4  HTTP/1.0 keep-alive + flush before finish: close-delimited body, Keep-Alive ack, connection open;
+  F5  set_status(204|1xx); write; flush: body bytes behind the bodyless header block;
+  new raise Finish whose implicit finish() asserts (204/304/1xx + buffered chunk): request never answered.
+With the three proposed patches applied to a scratch copy the check is quiet with zero excluded cases.
+
+Sensitivity (quick tier, seed 1, each mutant applied alone to a scratch copy of tornado/; all 12 caught):
+  http1connection.write_headers: `_chunking_output` ignoring HEAD            -> C02.not_well_framed
+  http1connection._format_chunk: over-length guard removed                   -> C02.aborted_response_bytes
+  http1connection.finish: terminating zero-length chunk omitted              -> C02.not_well_framed
+  web.finish: Content-Length from the first buffered chunk only              -> C02.closed_without_response
+  web.finish: buffer kept on ETag match (304 with body)                      -> C02.status
+  web.send_error: clear() dropped (handler headers leak into the error page) -> C02.closed_without_response
+  http1connection.finish: under-length guard removed                         -> C02.content_length_mismatch_connection_left_open
+  web.flush: HEAD body written on later flushes                              -> C02.operation_rejected_unexpectedly
+  web._convert_header_value: CR/LF check removed                             -> C02.status
+  web.set_status: reason-phrase check removed                                -> C02.etag (injected header block)
+  web.write: write-after-finish allowed                                      -> C02.not_well_framed
+  http1connection.write_headers: 204 allowed to be chunked                   -> C02.not_well_framed
 """
 from hypothesis import strategies as st
 
@@ -32,9 +50,9 @@ from vlib import httpharness, httpref
 from vlib import respmodel as rm
 
 PROPERTY = "C02"
-READY = False
+READY = True
 RULE = (
-    "Hypothesis: handler program of <=8 ops (half free op lists, half structured header-ops/body-ops/"
+    "Hypothesis: handler program of <=8 ops (1/3 free op lists, 2/3 structured header-ops/body-ops/"
     "terminal/trailing-ops) x method GET/HEAD/POST x HTTP/1.0|1.1 x Connection absent/close/keep-alive x "
     "If-None-Match none/match/weak/star/list/other x request segmentation; non-trivial = flush before "
     "finish, or status 1xx/204/304, or HEAD, or HTTP/1.0; distinct = SHA-1 of the case"
@@ -367,6 +385,11 @@ def run_case(ctx, case):
         ctx.check(not ack, "C02.keepalive_ack_on_close_delimited_response", info)
     if exp.flushed_early:
         labels.add("flush_then_finish")
+    # the model accepted every operation: Tornado must not have rejected one (an exception thrown into the
+    # handler is logged by RequestHandler.log_exception on tornado.application)
+    if not exp.rejected and "flush_after_finish" not in exp.labels:
+        thrown = [r[2][:200] for r in logs.records if r[0] == "tornado.application" and r[1] >= 40]
+        ctx.check(not thrown, "C02.operation_rejected_unexpectedly", dict(info, logged=thrown))
     if second_ok(ctx, rest, closed, info):
         labels.add("second_answered")
     else:
@@ -379,4 +402,4 @@ PARTS = {"main": run_case}
 
 def main(ctx):
     ctx.run_replays(PARTS)
-    ctx.explore(case_s, run_case, ctx.n(2500, 160000), name="main")
+    ctx.explore(case_s, run_case, ctx.n(2000, 80000), name="main")
